@@ -33,7 +33,10 @@ def expectedSignerCalls : List SignerCall := [
   ⟨"ValidateWriteScope", "validateRolesPresent", ["proposed.Owners", "scopeSpec.PartiesInvolved"]⟩,
   ⟨"ValidateWriteScope", "validateProvenanceRole", ["types.BuildPartyDetails(nil, proposed.Owners)"]⟩,
   ⟨"ValidateWriteScope", "validateAllRequiredSigned", ["existing.GetAllOwnerAddresses()"]⟩,
-  ⟨"ValidateWriteScope", "validateAllRequiredPartiesSigned", ["existing.Owners", "existing.Owners", "scopeSpec.PartiesInvolved"]⟩,
+  ⟨"ValidateWriteScope", "set:reqRoles", ["scopeSpec.PartiesInvolved"]⟩,
+  ⟨"ValidateWriteScope", "GetScopeSpecification", ["existing.SpecificationId"]⟩,
+  ⟨"ValidateWriteScope", "set:reqRoles", ["existingSpec.PartiesInvolved"]⟩,
+  ⟨"ValidateWriteScope", "validateAllRequiredPartiesSigned", ["existing.Owners", "existing.Owners", "reqRoles"]⟩,
   ⟨"ValidateWriteScope", "validateSmartContractSigners", ["usedSigners"]⟩,
   ⟨"ValidateDeleteScope", "validateAllRequiredSigned", ["scope.GetAllOwnerAddresses()"]⟩,
   ⟨"ValidateDeleteScope", "GetScopeSpecification", ["scope.SpecificationId"]⟩,
@@ -75,19 +78,31 @@ def expectedSignerCalls : List SignerCall := [
 /-- The endpoints call the signer validation exactly as the model of the callers assumes. -/
 theorem signer_calls_as_modelled : Generated.SignerCalls.calls = expectedSignerCalls := by decide
 
-/-- Which id each endpoint uses to look the scope specification up: the stored scope's id
-everywhere, except `ValidateWriteScope` (and `ValidateUpdateScopeOwners`, whose `proposed` is a
-copy of the stored scope): the PROPOSED scope's id — the syntactic root of known finding
-C10-scope-spec-swap. -/
+/-- Which id each endpoint uses to look the scope specification up.  `ValidateWriteScope`
+looks up the PROPOSED scope's specification (for the roles the proposed owners must contain)
+and, since commit 89425229f, also the STORED scope's (for the roles that must sign); before
+that commit only the first look-up existed — the syntactic root of C10-scope-spec-swap.
+`ValidateUpdateScopeOwners`' `proposed` is a copy of the stored scope. -/
 theorem scope_spec_lookups :
     (Generated.SignerCalls.calls.filter (·.callee = "GetScopeSpecification")).map (fun c => (c.fn, c.args))
       = [("ValidateWriteScope", ["proposed.SpecificationId"]),
+         ("ValidateWriteScope", ["existing.SpecificationId"]),
          ("ValidateDeleteScope", ["scope.SpecificationId"]),
          ("ValidateSetScopeAccountData", ["scope.SpecificationId"]),
          ("ValidateAddScopeDataAccess", ["existing.SpecificationId"]),
          ("ValidateDeleteScopeDataAccess", ["existing.SpecificationId"]),
          ("ValidateUpdateScopeOwners", ["proposed.SpecificationId"]),
          ("ValidateWriteSession", ["scope.SpecificationId"])] := by decide
+
+/-- The signer roles of an existing rollup scope (`reqRoles`): the named specification's by
+default, replaced by the stored scope's specification's — exactly the `getD` of the model. -/
+theorem writeScope_signer_roles :
+    (Generated.SignerCalls.calls.filter fun c => c.fn = "ValidateWriteScope" ∧ c.callee = "set:reqRoles").map
+        (·.args)
+      = [["scopeSpec.PartiesInvolved"], ["existingSpec.PartiesInvolved"]]
+    ∧ (⟨"ValidateWriteScope", "validateAllRequiredPartiesSigned",
+        ["existing.Owners", "existing.Owners", "reqRoles"]⟩ : SignerCall) ∈ Generated.SignerCalls.calls := by
+  decide
 
 /-- Every call that checks signatures against roles takes required and available parties from
 STORED entries (`existing`, `scope`, `session`, assembled `reqParties`) — never from the
